@@ -332,6 +332,16 @@ func run(t vlib.TB, test string, c config, k call) {
 		}
 	}
 
+	if admit && k.PrintlnMode == "" && !((isPrint || k.R == slog.AlwaysLevel) && vlib.LooksBlank(k.Msg)) { // (Print is the Always severity)
+		// "the whole record": a message that is not blank in any reading (control characters are not white space) never
+		// shrinks to the bare newline of a blank Print
+		for _, e := range writes {
+			if len(e.Payload) <= 1 {
+				t.Fatalf("C02 %s: the destination got %q instead of the whole record (the message is not blank)", where, e.Payload)
+			}
+		}
+	}
+
 	// classification
 	labels := []string{"format=" + c.Format, "ep=" + k.EP.Kind, fmt.Sprintf("admit=%v", admit), fmt.Sprintf("add-only=%v", c.AddOnly), fmt.Sprintf("added-then-removed=%d", c.Removed), fmt.Sprintf("closed-first=%d", c.ClosedFirst)}
 	for l := range k.Args.Labels {
@@ -384,7 +394,8 @@ func genCall() *rapid.Generator[call] {
 				k.PrintlnMode = "noargs"
 			case 1:
 				k.PrintlnMode = "nonstring"
-				k.FirstArg = rapid.SampledFrom([]any{42, nil, 3.5, true, vlib.Pt{X: 1, Y: "p"}, []string{"a"}, fmt.Errorf("boom"), vlib.Str{S: "str"}, []byte("bytes")}).Draw(t, "first")
+				k.FirstArg = rapid.SampledFrom([]any{42, nil, 3.5, true, vlib.Pt{X: 1, Y: "p"}, []string{"a"}, fmt.Errorf("boom"), vlib.Str{S: "str"}, []byte("bytes"),
+					(*int)(nil), (*string)(nil), (*vlib.Pt)(nil), (**int)(nil), new(*int), &vlib.Pt{X: 2, Y: "q"}, map[string]int(nil), []int(nil), (func())(nil), (chan int)(nil)}).Draw(t, "first")
 			}
 		}
 		return k
